@@ -17,6 +17,63 @@ func NewFeature(key string, loc Location, props Props) Feature {
 	return Feature{key, loc, props}
 }
 
+func fragmentParts(loc Location) ([]Location, bool) {
+	switch v := loc.(type) {
+	case Joined:
+		return v, false
+	case Ordered:
+		return v, true
+	default:
+		return []Location{loc}, false
+	}
+}
+
+// mergeFragments joins the fragment b onto the fragment a of the same feature
+// when the last range of a ends where the first range of b starts and the two
+// ends are marked partial (or force is set). Every location is handled as a
+// unit, so joined and complemented locations keep their shape.
+func mergeFragments(a, b Location, force bool) (Location, bool) {
+	ca, oka := a.(Complemented)
+	cb, okb := b.(Complemented)
+	switch {
+	case oka && okb:
+		m, ok := mergeFragments(ca.Location, cb.Location, force)
+		if !ok {
+			return nil, false
+		}
+		return Complemented{m}, true
+	case oka || okb:
+		return nil, false
+	}
+
+	pa, orda := fragmentParts(a)
+	pb, ordb := fragmentParts(b)
+	if len(pa) == 0 || len(pb) == 0 {
+		return nil, false
+	}
+	l, lok := pa[len(pa)-1].(Ranged)
+	r, rok := pb[0].(Ranged)
+	if !lok || !rok || l.End != r.Start {
+		return nil, false
+	}
+	if !force && !(l.Partial.Partial3 && r.Partial.Partial5) {
+		return nil, false
+	}
+
+	parts := make([]Location, 0, len(pa)+len(pb)-1)
+	parts = append(parts, pa[:len(pa)-1]...)
+	parts = append(parts, Ranged{l.Start, r.End, Partial{l.Partial.Partial5, r.Partial.Partial3}})
+	parts = append(parts, pb[1:]...)
+	switch {
+	case len(parts) == 1:
+		return parts[0], true
+	case orda || ordb:
+		return Ordered(parts), true
+	default:
+		return Joined(parts), true
+	}
+}
+
 // Repair attempts to reconstruct features by joining features with identical
 // feature keys and values which have adjacent locations.
 func Repair(ff []Feature) []Feature {
@@ -40,13 +97,17 @@ func Repair(ff []Feature) []Feature {
 			sort.Sort(Locations(locs))
 
 			force := ff[indices[0]].Key == "source"
-			list := LocationList{}
+			merged := make([]Location, 0, len(locs))
 			for _, loc := range locs {
-				list.Push(loc, force)
+				if n := len(merged); n > 0 {
+					if m, ok := mergeFragments(merged[n-1], loc, force); ok {
+						merged[n-1] = m
+						continue
+					}
+				}
+				merged = append(merged, loc)
 			}
-
-			// DISCUSS: Should we join these locations?
-			locs = list.Slice()
+			locs = merged
 
 			// Some locations were merged.
 			if len(locs) < len(indices) {
